@@ -7,7 +7,7 @@
 From BV Require Import Word.
 
 (* ---------- buffers ---------- *)
-Definition slot := option N.             (* None = uninitialised memory *)
+Notation slot := (option N).             (* None = uninitialised memory *)
 
 Record vec := mkVec {
   v_buf : list slot;                     (* the RawVec buffer: one slot per unit of capacity *)
